@@ -20,6 +20,12 @@ def _weights(calc):
     return numpy.array([w for _, w in calc.qha_input.weights], dtype=float)
 
 
+def _strains_given(obj):
+    """The strain fractions the object was constructed with, as the harness recorded them (``_oracle_e``); the object's own
+    attribute only where the harness did not construct it (objects made by the scheduler, judged end to end elsewhere)."""
+    return getattr(obj, "_oracle_e", None) or obj.e
+
+
 def _abs_scale_from_arrays(calc, t, v, ei, ej, longitudinal):
     """sum of absolute mode terms from the arrays (tolerance scale only)."""
     ei, ej = numpy.abs(numpy.asarray(ei, dtype=float)), numpy.abs(numpy.asarray(ej, dtype=float))     # magnitudes: a negative fraction must not cancel terms
@@ -96,7 +102,7 @@ class NonShearMonitor:
         calc = obj.calculator
         t = numpy.asarray(calc.t_array, dtype=float)
         v = numpy.asarray(calc.v_array, dtype=float)
-        ei, ej = (numpy.asarray(x, dtype=float) for x in obj.e)
+        ei, ej = (numpy.asarray(x, dtype=float) for x in _strains_given(obj))
         longi = self._kind(obj) == "longitudinal"
         spec = self._spectrum(calc)
         out = {}
@@ -208,7 +214,7 @@ class NonShearMonitor:
         calc = obj.calculator
         t = numpy.asarray(calc.t_array, dtype=float)
         v = numpy.asarray(calc.v_array, dtype=float)
-        ei, ej = (numpy.asarray(x, dtype=float) for x in obj.e)
+        ei, ej = (numpy.asarray(x, dtype=float) for x in _strains_given(obj))
         cv = numpy.asarray(calc.qha_calculator.volume_base.heat_capacity, dtype=float)
         out = {}
         spec = self._spectrum(calc)
@@ -276,7 +282,7 @@ class NonShearMonitor:
             cls = "lowT" if t[i[0]] < 20 else "other"
             ctx.violation(f"{kind}:gap:non-finite:{cls}", f"gap non-finite at T={t[i[0]]} although C_V>0", cid)
             return
-        same_index = numpy.array_equal(numpy.asarray(obj.e[0]), numpy.asarray(obj.e[1]))
+        same_index = numpy.array_equal(numpy.asarray(_strains_given(obj)[0]), numpy.asarray(_strains_given(obj)[1]))
         classical = refs.pop("_classical")
         absmag = refs.pop("_abs")
         for src, (ref, tol) in refs.items():
